@@ -113,6 +113,20 @@ Theorem failed_link_effect : forall s r res,
 Proof. exact failed_link_effect_proof. Qed.
 Print Assumptions failed_link_effect.
 
+(* (wave 6) A completed link registers nothing but the resolver's answers either: the exports of the modules it
+   binds were published when the modules were LOADED (in load order, interleaved with MIR_load_external) and are not
+   published again module by module while the queue is walked.  Every name that had a definition when the link
+   started keeps exactly that definition - so an importer queued after an older exporter of a name still gets what
+   was registered last (link_binds_latest), and the next link step starts from the same table. *)
+Theorem completed_link_publishes_nothing : forall s r bs res,
+  snd (step true s (Link r)) = OLinked bs res ->
+  let s' := fst (step true s (Link r)) in
+  to_link s' = [] /\ linked s' = linked s ++ bs /\ redef s' = redef s /\ dead s' = false /\
+  env s' = apply_new (env s) res /\
+  (forall n, assoc (env s) n <> None -> assoc (env s') n = assoc (env s) n).
+Proof. exact completed_link_publishes_nothing_proof. Qed.
+Print Assumptions completed_link_publishes_nothing.
+
 (* Loading a built module after any history either succeeds or raises repeated_decl, and it raises
    it exactly when redefinition is not permitted and the module exports a FUNCTION whose name
    already has a definition in the log (an earlier export of any kind, an external, a resolver
